@@ -48,6 +48,8 @@ structure St where
   snaps : List (Nat × Snap) := []
   gcSpec : Option Spec.KV := none                          -- the reference map when the GC pass began (C07)
   gcPre : Option (Store.Bucket × Nat × Nat) := none        -- the bucket model before the pass, and the resolved range
+  groups : List (List Bytes) := []                         -- mix collide (C13): keys forced onto one key hash; the model is not compared
+  phase : String := "plain"                                -- mix collide: the strongest structural event of the case so far (plain < reload < rebuild < gc)
 
 def depthOf (nb : Nat) : Nat := if nb ≥ 256 then 2 else if nb ≥ 16 then 1 else 0
 
@@ -179,9 +181,16 @@ def run (lines : Array String) : IO Report := do
         cases := cases + 1
         caseNontrivial := false
     | ["open"] => st := { st with active := false }
+    | ["groups", gs] =>
+        st := { st with groups := (gs.splitOn ";").map fun g => (g.splitOn ",").map unhex }
     | _ =>
     if !st.active then continue
-    let hash := keyHash
+    -- mix collide: every key of a group has the key hash of the group's first key
+    let hash : Bytes → Nat := fun k => match st.groups.find? (fun g => g.contains k) with
+      | some (leader :: _) => keyHash leader
+      | _ => keyHash k
+    let colliding : Bytes → Bool := fun k => st.groups.any (fun g => g.contains k)
+    let opfx : Bytes → String := fun k => if colliding k then "C13" else "C01"
     let servedKey := fun (k : Bytes) => st.cfg.served.contains (bucketOf st.cfg.nb k)
     let scfgSpec : Spec.Cfg := { checkVHash := st.cfg.checkVHash }
     -- C15: the code's (regenerated) key hash must route every key like the reference key hash
@@ -204,26 +213,27 @@ def run (lines : Array String) : IO Report := do
           let b := st.buckets[bkt]!
           let (b', r, pos) := Store.step hash st.scfg b (.set k body flag.toNat! (parseInt rev) ts.toNat! size)
           let m := (if r == .stored then "STORED" else "ERR") ++ " pos=" ++ fmtPos bkt pos
-          if m ≠ obs then diff rep ln "model" s!"case={cid} set: model={m} impl={obs}"
+          if m ≠ obs then diffIf st.groups.isEmpty rep ln "model" s!"case={cid} set: model={m} impl={obs}"
           -- C10 decision oracle: the on-disk size is the plain padded size, or smaller only when compression was allowed
           if pos.isSome then
             let plain := plainSize k.length body.length
             let mayCompress : Bool := decide (plain > 256) && (flag.toNat! &&& 0x10) == 0 && (flag.toNat! &&& 0x10000) == 0
             if !(size == plain || (mayCompress && decide (size < plain) && size % 256 == 0 && decide (size > 0))) then
-              diff rep ln "oracle" s!"case={cid} key=C10/size record of {k.length}+{body.length} bytes occupies {size} bytes (plain {plain}, compression allowed: {mayCompress})"
+              if colliding k then diff rep ln "oracle" s!"case={cid} key=C13/write-path-takes-other-keys-item set of a colliding key acknowledged but {size} bytes written (plain {plain})"
+              else diff rep ln "oracle" s!"case={cid} key=C10/size record of {k.length}+{body.length} bytes occupies {size} bytes (plain {plain}, compression allowed: {mayCompress})"
           let (sp', sr) := Spec.step scfgSpec st.spec (.set k body flag.toNat! (parseInt rev) ts.toNat!)
           let so : String := if sr == .stored then "STORED" else "NOT_STORED"
           let overflow : Bool := match AMap.get st.spec k with | some e => decide (e.ver.natAbs ≥ 2147483647) | none => false
           if !(obs.startsWith so) then
-            if overflow then diff rep ln "oracle" s!"case={cid} key=C01/version-overflow set refused ({obs}) because the stored version has reached the int32 limit"
-            else diff rep ln "oracle" s!"case={cid} key=C01/set-status spec={so} impl={obs}"
+            if overflow then diff rep ln "oracle" s!"case={cid} key={opfx k}/version-overflow set refused ({obs}) because the stored version has reached the int32 limit"
+            else diff rep ln "oracle" s!"case={cid} key={opfx k}/set-status spec={so} impl={obs}"
           -- version proviso: a tree-only version change makes this key's version inexact from now on
           let treeOnly : Bool := st.cfg.checkVHash && pos.isNone && parseInt rev != 0 &&
             (match AMap.get st.spec k with | some e => decide (e.ver > 0) && Ref.vhash e.body == Ref.vhash body | none => false)
           -- F1: same value hash, different bytes: acknowledged but not written
           let stale : Bool := st.cfg.checkVHash && (match AMap.get st.spec k with
             | some e => decide (e.ver > 0) && Ref.vhash e.body == Ref.vhash body && (e.body != body || e.flag != flag.toNat!) | none => false)
-          if stale then diff rep ln "oracle" s!"case={cid} key=C01/stale-after-stored/same-vhash set acknowledged STORED but skipped because the 16-bit value hash equals the stored one while bytes or flags differ"
+          if stale then diff rep ln "oracle" s!"case={cid} key={opfx k}/stale-after-stored/same-vhash set acknowledged STORED but skipped because the 16-bit value hash equals the stored one while bytes or flags differ"
           -- after a version-overflow refusal the reference follows the implementation (the finding is reported once)
           let sp' := if overflow && !(obs.startsWith so) then st.spec else sp'
           let dv := if pos.isSome then (match AMap.get b'.tree (hash k) with | some it => AMap.set st.dataVer k it.ver | none => st.dataVer) else st.dataVer
@@ -243,12 +253,18 @@ def run (lines : Array String) : IO Report := do
           let wts := ((kvOpt rest "ts").getD "0").toNat!
           let (b', r, pos) := Store.step hash st.scfg b (.delete k size wts)
           let m := (match r with | .deleted => "DELETED" | .notFound => "NOT_FOUND" | _ => "ERR") ++ " pos=" ++ fmtPos bkt pos
-          if m ≠ obs then diff rep ln "model" s!"case={cid} del: model={m} impl={obs}"
+          if m ≠ obs then diffIf st.groups.isEmpty rep ln "model" s!"case={cid} del: model={m} impl={obs}"
           let (sp', sr) := Spec.step scfgSpec st.spec (.delete k)
           let so : String := match sr with | .deleted => "DELETED" | _ => "NOT_FOUND"
-          if !(obs.startsWith so) then diff rep ln "oracle" s!"case={cid} key=C01/delete-status spec={so} impl={obs}"
-          if sr == .deleted && pos.isNone && obs.startsWith "DELETED" then
-            diff rep ln "oracle" s!"case={cid} key=C01/delete-not-written delete acknowledged but no tombstone record written"
+          if !(obs.startsWith so) then
+            if colliding k then
+              -- the write path takes the tree item of the key hash as this key's own old version, whichever key it belongs to
+              diff rep ln "oracle" s!"case={cid} key=C13/write-path-takes-other-keys-item delete of a colliding key: reference says {so}, reply {obs}"
+            else diff rep ln "oracle" s!"case={cid} key={opfx k}/delete-status spec={so} impl={obs}"
+          if sr == .deleted && pos.isNone && obs.startsWith "DELETED" && !(colliding k) then
+            diff rep ln "oracle" s!"case={cid} key={opfx k}/delete-not-written delete acknowledged but no tombstone record written"
+          -- colliding keys: the reference follows what the client was told (a refused delete deleted nothing)
+          let sp' := if colliding k && !(obs.startsWith so) then (if obs.startsWith "NOT_FOUND" then st.spec else sp') else sp'
           let dv := if pos.isSome then (match AMap.get b'.tree (hash k) with | some it => AMap.set st.dataVer k it.ver | none => st.dataVer) else st.dataVer
           st := { st with buckets := st.buckets.set! bkt b', spec := sp', dataVer := dv }
           st := noteWrite st scfgSpec k pos size
@@ -265,10 +281,10 @@ def run (lines : Array String) : IO Report := do
           let wts := ((kvOpt rest "ts").getD "0").toNat!
           let (b', r, pos) := Store.step hash st.scfg b (.incr k (parseInt delta) size wts)
           let m := (match r with | .num v => s!"{v}" | _ => "ERR") ++ " pos=" ++ fmtPos bkt pos
-          if m ≠ obs then diff rep ln "model" s!"case={cid} incr: model={m} impl={obs}"
+          if m ≠ obs then diffIf st.groups.isEmpty rep ln "model" s!"case={cid} incr: model={m} impl={obs}"
           let (sp', sr) := Spec.step scfgSpec st.spec (.incr k (parseInt delta))
           let so : String := match sr with | .num v => s!"{v} " | _ => "ERR"
-          if !(obs.startsWith so) then diff rep ln "oracle" s!"case={cid} key=C01/incr-value spec={so} impl={obs}"
+          if !(obs.startsWith so) then diff rep ln "oracle" s!"case={cid} key={if colliding k then s!"C13/incr/{st.phase}" else "C01/incr-value"} spec={so} impl={obs}"
           let dv := if pos.isSome then (match AMap.get b'.tree (hash k) with | some it => AMap.set st.dataVer k it.ver | none => st.dataVer) else st.dataVer
           st := { st with buckets := st.buckets.set! bkt b', spec := sp', dataVer := dv }
           st := noteWrite st scfgSpec k pos size
@@ -284,9 +300,14 @@ def run (lines : Array String) : IO Report := do
           let (_, r, _) := Store.step hash st.scfg b (.get k)
           let fmt := fun (r : Spec.Reply) => match r with
             | .value f body => s!"VAL {f} {valSummary body}" | .miss => "MISS" | _ => "ERR"
-          if fmt r ≠ obs then diff rep ln "model" s!"case={cid} get: model={(fmt r).take 100} impl={obs.take 100}"
+          if fmt r ≠ obs then diffIf st.groups.isEmpty rep ln "model" s!"case={cid} get: model={(fmt r).take 100} impl={obs.take 100}"
           let (_, sr) := Spec.step scfgSpec st.spec (.get k)
-          if fmt sr ≠ obs then diff rep ln "oracle" s!"case={cid} key=C01/get-value spec={(fmt sr).take 100} impl={obs.take 100}"
+          if fmt sr ≠ obs then
+            if colliding k then
+              let symptom := if obs == "ERR" then "error" else if obs == "MISS" then "live-key-missing"
+                else if fmt sr == "MISS" then "deleted-key-back" else "other-or-older-value"
+              diff rep ln "oracle" s!"case={cid} key=C13/{symptom}/{st.phase} get of a colliding key: reference {(fmt sr).take 80} reply {obs.take 80}"
+            else diff rep ln "oracle" s!"case={cid} key={opfx k}/get-value spec={(fmt sr).take 100} impl={obs.take 100}"
           ok rep
     | ["meta", kh] =>
         let k := unhex kh
@@ -304,23 +325,24 @@ def run (lines : Array String) : IO Report := do
                 let p := match pos with | some p => s!"{p.chunk} {p.off}" | none => "? ?"
                 s!"{ver} {vh} {fl} {len} {tss} {p}"
             | .miss => "MISS" | _ => "ERR"
-          if m ≠ obs then diff rep ln "model" s!"case={cid} meta: model={m} impl={obs}"
+          if m ≠ obs then diffIf st.groups.isEmpty rep ln "model" s!"case={cid} meta: model={m} impl={obs}"
           let (_, sr) := Spec.step scfgSpec st.spec (.info k)
-          match sr with
+          match (if colliding k then Spec.Reply.error else sr) with
           | .info ver vh fl len ts =>
-              let verOk : Bool := st.inexact.contains k || ows.getD 0 "" == s!"{ver}"
+              let verOk : Bool := st.inexact.contains k || colliding k || ows.getD 0 "" == s!"{ver}"
               let tsOk : Bool := match ts with | some t => ows.getD 4 "" == s!"{t}" | none => true
               if !(verOk && ows.getD 1 "" == s!"{vh}" && ows.getD 2 "" == s!"{fl}" && ows.getD 3 "" == s!"{len}" && tsOk) then
-                diff rep ln "oracle" s!"case={cid} key=C01/meta spec=({ver} {vh} {fl} {len}) impl={obs}"
-          | .miss => if obs ≠ "MISS" then diff rep ln "oracle" s!"case={cid} key=C01/meta spec=MISS impl={obs}"
+                diff rep ln "oracle" s!"case={cid} key={opfx k}/meta spec=({ver} {vh} {fl} {len}) impl={obs}"
+          | .miss => if obs ≠ "MISS" then diff rep ln "oracle" s!"case={cid} key={opfx k}/meta spec=MISS impl={obs}"
           | _ => pure ()
           ok rep
     | ["list", pfx] =>
+        if !st.groups.isEmpty then continue
         let pfx := if pfx == "-" then "" else pfx
         let depth := depthOf st.cfg.nb
         let m := fmtListing (listAt st.cfg (fun b => contentOfTree (st.buckets[b]!).tree) pfx)
         let o := canonListing obs
-        if m ≠ o then diff rep ln "model" s!"case={cid} list {pfx}: model={m.take 160} impl={o.take 160}"
+        if m ≠ o then diffIf st.groups.isEmpty rep ln "model" s!"case={cid} list {pfx}: model={m.take 160} impl={o.take 160}"
         -- oracle: recomputation from the reference content alone
         let specContent := contentOfSpec st.spec
         let sc := fun (b : Nat) => specContent.filter (fun e => Tree.topDigits e.khash depth == b)
@@ -366,7 +388,10 @@ def run (lines : Array String) : IO Report := do
           let sp := if keep then st.spec else
             (st.spec.filter (fun p => p.2.ver > 0)).map fun (k, e) =>
               if st.inexact.contains k then (k, { e with ver := (AMap.get st.dataVer k).getD e.ver }) else (k, e)
-          st := { st with buckets := bs, spec := sp, inexact := if keep then st.inexact else [] }
+          let rank := fun (p : String) => if p == "gc" then 3 else if p == "rebuild" then 2 else if p == "reload" then 1 else 0
+          let np := if keep then "reload" else "rebuild"
+          st := { st with buckets := bs, spec := sp, inexact := if keep then st.inexact else [],
+                          phase := if rank np > rank st.phase then np else st.phase }
           caseNontrivial := true
         ok rep
     | "gc" :: opts =>
@@ -377,11 +402,11 @@ def run (lines : Array String) : IO Report := do
         let pretend := geti "pretend" == 1
         match Store.gcCheckRange st.scfg b g with
         | .error _ =>
-            if obs ≠ "REFUSED" then diff rep ln "model" s!"case={cid} gc range: model=REFUSED impl={obs.take 80}"
+            if obs ≠ "REFUSED" then diffIf st.groups.isEmpty rep ln "model" s!"case={cid} gc range: model=REFUSED impl={obs.take 80}"
         | .ok (s, e) =>
             -- C17 oracle on the resolved range: inside the store, below the head, non-empty start
-            if !(obs.startsWith s!"RANGE {s} {e}") then diff rep ln "model" s!"case={cid} gc range: model=RANGE {s} {e} impl={obs.take 80}"
-            if obs.startsWith "RANGE" then
+            if !(obs.startsWith s!"RANGE {s} {e}") then diffIf st.groups.isEmpty rep ln "model" s!"case={cid} gc range: model=RANGE {s} {e} impl={obs.take 80}"
+            if obs.startsWith "RANGE" && st.groups.isEmpty then
               let ow := obs.splitOn " "
               let os := (ow.getD 1 "0").toNat!; let oe := (ow.getD 2 "0").toNat!
               if !(os ≤ oe && oe < b.head) then
@@ -399,16 +424,16 @@ def run (lines : Array String) : IO Report := do
             if !pretend && obs.startsWith "RANGE" then
               let (b', stats) := Store.gcRun hash st.scfg b s e
               let m := s!"before={stats.numBefore} released={stats.numReleased} sizebefore={stats.sizeBefore} sizereleased={stats.sizeReleased}"
-              if !(obs.endsWith m) then diff rep ln "model" s!"case={cid} gc stats: model={m} impl={obs.take 160}"
+              if !(obs.endsWith m) then diffIf st.groups.isEmpty rep ln "model" s!"case={cid} gc stats: model={m} impl={obs.take 160}"
               -- model-internal tie: the concrete pass lays the records out as  before ++ kept ++ after
               if (b'.log.map (·.2)) != StoreLemmas.gcAbstract hash b s e then
-                diff rep ln "model" s!"case={cid} gc-abstraction: concrete gcRun differs from the abstract pass (Lemmas/GCLog.gcAbstract)"
-              st := { st with buckets := st.buckets.set! bkt b', gcPending := some (bkt, s, e, st.lastFiles), gcPre := some (b, s, e) }
+                diffIf st.groups.isEmpty rep ln "model" s!"case={cid} gc-abstraction: concrete gcRun differs from the abstract pass (Lemmas/GCLog.gcAbstract)"
+              st := { st with buckets := st.buckets.set! bkt b', gcPending := some (bkt, s, e, st.lastFiles), gcPre := some (b, s, e), phase := "gc" }
               caseNontrivial := true
         ok rep
     | ["files"] =>
         -- oracles on the implementation's files right after a GC pass (C17 touch set, C18 only-current)
-        match st.gcPending with
+        match (if st.groups.isEmpty then st.gcPending else none) with
         | some (bkt, gs, ge, pre) =>
             let seg := fun (txt : String) => ((txt.splitOn " ").filter (· ≠ "")).filterMap fun sg =>
               match sg.splitOn ":" with
@@ -464,7 +489,7 @@ def run (lines : Array String) : IO Report := do
           let detail := match firstBad with
             | some (a, b) => s!"model={a.take 300} impl={b.take 300}"
             | none => s!"model has {ms.length} files, impl has {os.length}: model-last={(ms.getLast?.getD "").take 150} impl-last={(os.getLast?.getD "").take 150}"
-          diff rep ln "model" s!"case={cid} data files differ: {detail}"
+          diffIf st.groups.isEmpty rep ln "model" s!"case={cid} data files differ: {detail}"
         ok rep
     | ["dumphints"] => pure ()
     | ["close"] => st := { st with buckets := st.buckets.map fun b => (Store.step hash st.scfg b .flush).1 }
@@ -521,7 +546,7 @@ def run (lines : Array String) : IO Report := do
               let partialInPlace := ws.contains "app=0" && !(ws.contains "cut=0" &&
                 (((kvOpt ws "off").getD "0").toNat! % 256 == 0) && (((kvOpt ws "len").getD "0").toNat! % 256 == 0))
               if !found && !partialInPlace then
-                diff rep ln "model" s!"case={cid} gc-interm-abstraction: the data files at ({" ".intercalate (opts.filter (fun o => !o.startsWith "files="))}) are none of the abstract intermediate states of the pass [{gs},{ge}]: {(",".intercalate observed).take 300}"
+                diffIf st.groups.isEmpty rep ln "model" s!"case={cid} gc-interm-abstraction: the data files at ({" ".intercalate (opts.filter (fun o => !o.startsWith "files="))}) are none of the abstract intermediate states of the pass [{gs},{ge}]: {(",".intercalate observed).take 300}"
           | _, _ => pure ()
         let sn : Snap := { inGC := inGC, torn := b.tornAt cut, recovered := b.recover hash st.scfg cut present,
                            allowed := allowed, exact := exact, label := " ".intercalate (opts.filter (fun o => !o.startsWith "files=")) }
@@ -568,12 +593,40 @@ def run (lines : Array String) : IO Report := do
               | none => if obs ≠ "MISS" then diff rep ln "oracle" s!"case={cid} key=C07/value-after-kill-in-gc key {kh.take 40} never written reads {obs.take 60}"
             else
               let (_, r, _) := Store.step hash st.scfg sn.recovered (.get k)
-              if fmtGet r ≠ obs then diff rep ln "model" s!"case={cid} crash-recovery ({sn.label}) get {kh.take 40}: model={(fmtGet r).take 80} impl={obs.take 80}"
+              if fmtGet r ≠ obs then diffIf st.groups.isEmpty rep ln "model" s!"case={cid} crash-recovery ({sn.label}) get {kh.take 40}: model={(fmtGet r).take 80} impl={obs.take 80}"
               match sn.allowed.find? (fun p => p.1 == k) with
               | some (_, al) =>
                   if !(al.contains obs) then
                     diff rep ln "oracle" s!"case={cid} key=C06/value-after-kill key {kh.take 40} reads {obs.take 60} after a kill at ({sn.label}); allowed: {(" | ".intercalate (al.map (fun x => (x.take 40).toString))).take 200}"
               | none => if obs ≠ "MISS" then diff rep ln "oracle" s!"case={cid} key=C06/value-after-kill key {kh.take 40} never written reads {obs.take 60}"
+            ok rep
+    | ["clist", n, pfx] =>
+        match st.snaps.find? (fun p => p.1 == n.toNat!) with
+        | none => diff rep ln "driver" s!"clist of unknown snapshot {n}"
+        | some (_, sn) =>
+            if !sn.inGC then
+              let pfx := if pfx == "-" then "" else pfx
+              -- the listing of the recovered tree is the listing of its content (C08), also after an unclean stop
+              let content := contentOfTree sn.recovered.tree
+              let sl := listAt st.cfg (fun _ => content) pfx
+              let o := canonListing obs
+              match sl with
+              | .nodes _ =>
+                  if fmtListing sl ≠ o then diff rep ln "oracle" s!"case={cid} key=C08/node-summary-after-kill list {pfx} after a kill at ({sn.label}): content says {(fmtListing sl).take 160} impl={o.take 160}"
+              | .items es =>
+                  let body : String := if o.length ≥ 2 then ((o.drop 1).dropEnd 1).toString else ""
+                  let lines := if body.isEmpty then [] else body.splitOn "|"
+                  if lines.any (fun l => l.contains '/') then
+                    diff rep ln "oracle" s!"case={cid} key=C08/node-summary-after-kill list {pfx} after a kill at ({sn.label}): content says items, impl lists nodes {o.take 120}"
+                  else
+                    let live := (es.filter (fun e => e.ver > 0)).map fun e => s!"{hex16 e.khash} {e.vhash} {e.ver}"
+                    for l in live do
+                      if !(lines.contains l) then diff rep ln "oracle" s!"case={cid} key=C08/missing-live-item-after-kill list {pfx} after a kill at ({sn.label}): live entry {l} not listed"
+                    for l in lines do
+                      -- a listed line is a live entry, or a tombstone (negative version) the tree still carries
+                      if !(live.contains l) && !((l.splitOn " ").getLast?.map (·.startsWith "-") == some true) then
+                        diff rep ln "oracle" s!"case={cid} key=C08/spurious-item-after-kill list {pfx} after a kill at ({sn.label}): listed entry {l} is not a live key of the recovered content"
+              | .none => pure ()
             ok rep
     | ["stray"] =>
         if obs ≠ "-" then diff rep ln "oracle" s!"case={cid} key=C15/stray-file files outside the served buckets' directories: {obs.take 200}"
